@@ -148,6 +148,41 @@ CHECKS["C16"] = {
 }
 
 
+CHECKS["C09"] = {
+    "level": "model_checking",
+    "technique": "explicit-state BFS over token histories plus exhaustive interleaving workloads, with a stream-API contract monitor after every call, on the real code",
+    "level_text": "M-api is evaluated after every data call of every transition of the statemc search (documented hand-over and raw call order, one callback deviation "
+                  "DECLINED/STOP/ERROR per history up to the deviation depth) and of every schedule of the C04 / C16 interleaving workloads: return code in the documented set, DATA => whole "
+                  "chunk consumed, DATA_OTHER => strictly fewer bytes and the driver resumes exactly at the reported count (C04/C16 oracles would see a skipped or repeated byte), byte "
+                  "counters advance by the bytes offered, ERROR/STOP sticky for later data calls with no parsing callbacks, and no DATA_OTHER ping-pong when draining both remainders.",
+    "level_note": "What htp_connp_close() does after STOP, and data calls issued after the caller closed a direction, are outside the statement. Calls short-circuited by a sticky state may or "
+                  "may not advance the byte counters (the code counts after the guards).",
+    "design_ref": "DESIGN.md §6 C09",
+    "rule": _STATEMC_RULE + "; plus cutmc pair/tunnel schedules",
+    "bounds": {"quick": "statemc micro 4 / macro 5, deviations depth 3, raw-order micro 3 / macro 4; C04 N<=3 and C16 schedules", "thorough": "one level deeper everywhere"},
+    "mc_explanation": "states/transitions of the implementation itself; stateless workloads add distinct callback traces / data calls",
+    "assumptions": ["token alphabets of mc/statemc.c"],
+    "jobs": lambda tier: _statemc("C09", tier, asan_too=False, raw_too=True) + [J("cutmc", "plain", ["--mode", "pair"]), J("cutmc", "plain", ["--mode", "tunnel"])],
+}
+
+
+CHECKS["C13"] = {
+    "level": "exploration",
+    "technique": "bounded-exhaustive enumeration of all strings over an adversarial alphabet through the real URI splitter, judged by a partition checker",
+    "level_text": "Every string of length <= 7 (quick, 3.9e7) / <= 8 (thorough, 4.7e8) over {a : / @ ? # [ ] . 0 9 SP} is passed to htp_parse_uri() and the port handling of "
+                  "htp_normalize_parsed_uri(); re-joining the reported components with exactly their delimiters must reproduce the target minus trailing spaces (which implies order, "
+                  "contiguity and non-overlap), a target starting with '/' gets no scheme/authority, and port_number is the decimal value iff the port text is all digits in 1..65535, "
+                  "otherwise -1 with the invalid-host indicator. Exhaustive for the alphabet and length; says nothing about other bytes or longer targets.",
+    "level_note": "No second parser is trusted: the oracle only re-joins what the library reported. Blanks around the port digits are ignored as the library documents. A binding slice through "
+                  "the full request path is provided by C02 (absolute-URI targets) rather than here.",
+    "design_ref": "DESIGN.md §6 C13",
+    "rule": "odometer enumeration of all strings up to the length bound, sharded by the first two symbols; distinct = distinct (component-presence shape, length) classes observed",
+    "bounds": {"quick": "length <= 7 over 12 symbols; ASan pass at length <= 5", "thorough": "length <= 8; ASan pass at length <= 6"},
+    "assumptions": ["alphabet of mc/enum_c13.c"],
+    "jobs": lambda tier: [J("enum_c13", "plain", ["--maxlen", "7" if tier == "quick" else "8"]), J("enum_c13", "asan", ["--maxlen", "5" if tier == "quick" else "6"])],
+}
+
+
 def manifest():
     import json, os
     root = os.path.dirname(os.path.dirname(os.path.abspath(__file__)))
@@ -179,6 +214,7 @@ def manifest():
 
 ENGINES = [
     {"name": "statemc", "path": "mc/statemc.c", "serves_properties": ["C01", "C05", "C09", "C10"], "kind_free_text": "E2: explicit-state BFS over token histories of the real parser, exact canonical state hashing"},
+    {"name": "enum_c13", "path": "mc/enum_c13.c", "serves_properties": ["C13"], "kind_free_text": "E3: exhaustive string enumeration through htp_parse_uri with a partition checker"},
     {"name": "cutmc", "path": "mc/cutmc.c", "serves_properties": ["C02", "C03", "C04", "C06", "C16"], "kind_free_text": "E1: stateless deviation-bounded explorer of segmentation / generated grammar on the real code"},
 ]
 
